@@ -418,6 +418,7 @@ class allencahn_semiimplicit_v2(allencahn_fullyimplicit):
         f.impl[:] = (self.A.dot(v) - 1.0 / self.eps**2 * v ** (self.nu + 1)).reshape(self.nvars)
         f.expl[:] = (1.0 / self.eps**2 * v).reshape(self.nvars)
 
+        self.work_counters['rhs']()
         return f
 
     def solve_system(self, rhs, factor, u0, t):
@@ -525,6 +526,7 @@ class allencahn_multiimplicit(allencahn_fullyimplicit):
         f.comp1[:] = self.A.dot(v).reshape(self.nvars)
         f.comp2[:] = (1.0 / self.eps**2 * v * (1.0 - v**self.nu)).reshape(self.nvars)
 
+        self.work_counters['rhs']()
         return f
 
     def solve_system_1(self, rhs, factor, u0, t):
@@ -679,6 +681,7 @@ class allencahn_multiimplicit_v2(allencahn_fullyimplicit):
         f.comp1[:] = (self.A.dot(v) - 1.0 / self.eps**2 * v ** (self.nu + 1)).reshape(self.nvars)
         f.comp2[:] = (1.0 / self.eps**2 * v).reshape(self.nvars)
 
+        self.work_counters['rhs']()
         return f
 
     def solve_system_1(self, rhs, factor, u0, t):
